@@ -1054,9 +1054,6 @@ class C16(Prop):
                     if p in spec[1] and (dt, il) != spec[1][p]:
                         V("mislabelled_output_rejected", f"output {m}.{p} labelled {spec[1][p]}", (dt, il), idx)
                 h = handlers.get(m)
-                if h and h[0] == "nondict" and spec[1]:
-                    V("mislabelled_output_rejected", f"an error: handler of {m} returned no mapping for outputs "
-                      f"{sorted(spec[1])}", "execute returned a report", idx)
                 if h and h[0] == "ret":
                     for p, lab in h[1].items():
                         if lab is not None and p in spec[1] and lab != spec[1][p]:
